@@ -10,6 +10,7 @@ package main
 // ioerr: the first error any transport primitive returned during the current call.
 
 import (
+	"fmt"
 	"go/token"
 	"go/types"
 	"strings"
@@ -375,6 +376,21 @@ func (e *Exec) ghostPrimitive(st *State, fr *Frame, fn *ssa.Function, args []Val
 		return one(st, &IfaceV{Tid: w.errT, Ref: w.errR}), true
 	case "ghost_emitted":
 		return one(st, e.ghGet(s, "emitted", BV(64), IntConst(0))), true
+	case "ghost_line_n":
+		return one(st, e.ghGet(s, "line.n", BV(64), IntConst(0))), true
+	case "ghost_line_format":
+		return one(st, &StrV{Data: e.ghGet(s, "line.fmt.data", ArrSort(BV(64), BV(8)), IntConst(0)), Len: e.ghGet(s, "line.fmt.len", BV(64), IntConst(0))}), true
+	case "ghost_line_arg":
+		i := idx(args[0])
+		if i.Op != "bvconst" || i.Val > 2 {
+			panic(unsupported("ghost_line_arg needs a constant index below 3"))
+		}
+		cs := components(fn.Signature.Results().At(0).Type())
+		ts := make([]*Term, len(cs))
+		for k, c := range cs {
+			ts[k] = e.ghGet(s, fmt.Sprintf("line.arg%d%s", i.Val, c.suffix), c.sort, IntConst(0))
+		}
+		return one(st, unflatten(fn.Signature.Results().At(0).Type(), &ts)), true
 	case "ghost_lastcid":
 		return one(st, e.ghGet(s, "lastatomic", BV(64), IntConst(0))), true
 	case "ghost_ioerr":
@@ -523,6 +539,23 @@ func init() {
 		e.nilCheck(st, fr, p, pos)
 		cur := e.ghGet(st, "emitted", BV(64), IntConst(0))
 		e.ghSet(st, "emitted", BV(64), IntConst(0), BVAdd(cur, BVConst(1, 64)))
+		// what the line is made of: the format (Printf) and the first arguments, for ghost_line_format / ghost_line_arg
+		rest := args[1:]
+		if fn.Name() == "Printf" {
+			f := rest[0].(*StrV)
+			e.ghSet(st, "line.fmt.data", ArrSort(BV(64), BV(8)), IntConst(0), f.Data)
+			e.ghSet(st, "line.fmt.len", BV(64), IntConst(0), f.Len)
+			rest = rest[1:]
+		}
+		if va, ok := rest[0].(*SliceV); ok {
+			e.ghSet(st, "line.n", BV(64), IntConst(0), va.Len)
+			cs := components(va.Elem)
+			for i := 0; i < 3; i++ {
+				for _, c := range cs {
+					e.ghSet(st, fmt.Sprintf("line.arg%d%s", i, c.suffix), c.sort, IntConst(0), Select(st.arrayOf(va.Elem, c, va.Arr), BVAdd(va.Off, BVConst(uint64(i), 64))))
+				}
+			}
+		}
 		return one(st)
 	}
 	models["(*log.Logger).Println"] = emit
@@ -589,6 +622,86 @@ func (e *Exec) connWriteGuard(st *State, fr *Frame, cc *ssa.CallCommon, pos toke
 				e.oblige(st, fr, "guarded."+sd.Label, pos, e.chanHeld(st, ch))
 			}
 		}
+	}
+	for _, ai := range e.specs.atInvoke {
+		if ai.What != fname+"."+cc.Method.Name() {
+			continue
+		}
+		owner := *pv
+		owner.Path = append([]int(nil), pv.Path[:len(pv.Path)-1]...)
+		t := e.evalSpec(st, fr, ai.Clause, func(n string, t types.Type) (Value, bool) { return &owner, true }, true)
+		e.obligeNamed(st, fmt.Sprintf("%s#at-invoke.%s.%s%s", e.curFn, ai.What, strings.Join(ai.Clause.Labels, ","), relPos(fr.fn, pos)), "at-invoke", ai.Clause.Labels, "", t)
+		st.Assume(t)
+	}
+}
+
+// interfere: a lock of the object owner (a struct of type sty) is being acquired: other goroutines may have changed the
+// fields declared `interference`, within their rely condition.
+func (e *Exec) interfere(st *State, owner *PtrV, sty *types.Struct) {
+	if e.specMode > 0 {
+		return
+	}
+	for _, d := range e.specs.interf {
+		for i := 0; i < sty.NumFields(); i++ {
+			if sty.Field(i).Name() != d.Field {
+				continue
+			}
+			fp := *owner
+			fp.Path = append(append([]int(nil), owner.Path...), i)
+			l := e.locOf(&fp)
+			old := st.LoadLoc(l)
+			nv := freshValue("interf."+d.Field, sty.Field(i).Type())
+			e.assumeValid(st, sty.Field(i).Type(), nv)
+			st.StoreLoc(l, nv)
+			st.Assume(e.evalSpecArgs(st, d.Rely.SpecFn, []Value{old, nv}, false))
+			e.note("INTERFERENCE: field " + d.Field + " is re-read as arbitrary (within " + d.Rely.Name + ") at every lock acquisition of its object")
+		}
+	}
+}
+
+// interfereAt: v is the SSA value of a lock (a channel loaded from a field, or the address of a mutex field)
+func (e *Exec) interfereAt(st *State, fr *Frame, v ssa.Value) {
+	if len(e.specs.interf) == 0 {
+		return
+	}
+	if ld, ok := v.(*ssa.UnOp); ok {
+		v = ld.X
+	}
+	fa, ok := v.(*ssa.FieldAddr)
+	if !ok {
+		return
+	}
+	owner, ok := fr.env[fa.X].(*PtrV)
+	if !ok || owner.Kind != PObj {
+		return
+	}
+	sty, ok := fa.X.Type().Underlying().(*types.Pointer).Elem().Underlying().(*types.Struct)
+	if !ok {
+		return
+	}
+	e.interfere(st, owner, sty)
+}
+
+// guaranteeAt: a store to a field declared `interference` must itself satisfy the rely condition
+func (e *Exec) guaranteeAt(st *State, fr *Frame, x *ssa.Store, p *PtrV, nv Value) {
+	if len(e.specs.interf) == 0 || e.specMode > 0 || e.discovery > 0 {
+		return
+	}
+	fa, ok := x.Addr.(*ssa.FieldAddr)
+	if !ok {
+		return
+	}
+	sty, ok := fa.X.Type().Underlying().(*types.Pointer).Elem().Underlying().(*types.Struct)
+	if !ok {
+		return
+	}
+	for _, d := range e.specs.interf {
+		if sty.Field(fa.Field).Name() != d.Field {
+			continue
+		}
+		old := st.LoadLoc(e.locOf(p))
+		t := e.evalSpecArgs(st, d.Rely.SpecFn, []Value{old, nv}, true)
+		e.oblige(st, fr, "interference.guarantee."+d.Field, x.Pos(), t)
 	}
 }
 
